@@ -79,7 +79,8 @@ Section Values.
     match fuel with
     | O => SErr $"variable cycle"
     | S f =>
-        let look (x : str) : sres (list str) :=
+        let look (x : str) : sres (list str) :=          (* @{name} inside a string or a selector means the value of @name *)
+          let x := match x with "@" :: "{" :: r => "@" :: removelast r | _ => x end in
           match slookup x e with Some v => sval_toks f e v | None => SErr ($"unbound " ++ x) end in
         let fix ex (t : xexpr) : sres sval :=
           match t with
@@ -191,7 +192,12 @@ Fixpoint sem_node (callf : sem_call_handler) (media at_ : str) (parent : option 
   | NFrame sel fb =>
       sbind (body media at_ None ([] :: e) fb) (fun '(d, u, c) =>
         SOk (e, [], (match d with [] => [] | _ => [MkItem media at_ [sel] d] end) ++ u, c))
-  | NBlock sel b =>
+  | NBlock sel0 b =>
+      (* an interpolation in the selector is replaced by the text of the variable's value *)
+      sbind (smap (fun t => match t with
+                            | "@" :: "{" :: _ => sbind (sval_toks value_fuel e [VVar t]) (fun l => SOk (concat_str l))
+                            | _ => SOk t
+                            end) sel0) (fun sel =>
       if is_media_sel sel then
         let m' := and_media media (media_query sel) in
         sbind (body m' at_ parent ([] :: e) b) (fun '(d, u, c) =>
@@ -208,7 +214,7 @@ Fixpoint sem_node (callf : sem_call_handler) (media at_ : str) (parent : option 
       else
         let sels := combine parent sel in
         sbind (body media at_ (Some sels) ([] :: e) b) (fun '(d, u, c) =>
-          SOk (e, [], (match d with [] => [] | _ => [MkItem media at_ sels d] end) ++ u, c))
+          SOk (e, [], (match d with [] => [] | _ => [MkItem media at_ sels d] end) ++ u, c)))
   end.
 
 
